@@ -2,6 +2,7 @@ package scen
 
 import (
 	"fmt"
+	"strings"
 	"math/rand/v2"
 	"sync"
 
@@ -67,7 +68,7 @@ func (c13) Gen(r *rand.Rand, tier string, run int) *core.Case {
 	c.Params["instrument"] = []int{0, 0, 0, 1, 2, 3}[r.IntN(6)]
 	emit := func(n int) {
 		for i := 0; i < n; i++ {
-			c.Ops = append(c.Ops, core.Op{Kind: "emit", Actor: 50, X: int64(r.IntN(3)), Y: int64(r.IntN(4))})
+			c.Ops = append(c.Ops, core.Op{Kind: "emit", Actor: 50, X: int64(r.IntN(4)), Y: int64(r.IntN(4))})
 		}
 	}
 	if c.Batch == "sequential" {
@@ -80,13 +81,13 @@ func (c13) Gen(r *rand.Rand, tier string, run int) *core.Case {
 			k := r.IntN(subs)
 			switch {
 			case !active[k] && r.IntN(3) != 0:
-				c.Ops = append(c.Ops, core.Op{Kind: "sub", Actor: k, X: int64(r.IntN(3)), Y: int64(r.IntN(conns))})
+				c.Ops = append(c.Ops, core.Op{Kind: "sub", Actor: k, X: int64(r.IntN(4)), Y: int64(r.IntN(conns))})
 				active[k] = true
 			case active[k] && r.IntN(2) == 0:
 				c.Ops = append(c.Ops, core.Op{Kind: "cancel", Actor: k})
 				active[k] = false
 			default:
-				c.Ops = append(c.Ops, core.Op{Kind: "emit", Actor: 50, X: int64(r.IntN(3))})
+				c.Ops = append(c.Ops, core.Op{Kind: "emit", Actor: 50, X: int64(r.IntN(4))})
 			}
 			c.Ops = append(c.Ops, core.Op{Kind: "barrier"})
 		}
@@ -95,7 +96,7 @@ func (c13) Gen(r *rand.Rand, tier string, run int) *core.Case {
 	}
 	if c.Batch == "phased" {
 		for k := 0; k < subs; k++ {
-			c.Ops = append(c.Ops, core.Op{Kind: "sub", Actor: k, X: int64(r.IntN(3)), Y: int64(r.IntN(conns))})
+			c.Ops = append(c.Ops, core.Op{Kind: "sub", Actor: k, X: int64(r.IntN(4)), Y: int64(r.IntN(conns))})
 		}
 		c.Ops = append(c.Ops, core.Op{Kind: "barrier"})
 		emit(2 + r.IntN(10))
@@ -104,7 +105,7 @@ func (c13) Gen(r *rand.Rand, tier string, run int) *core.Case {
 			if r.IntN(2) == 0 {
 				c.Ops = append(c.Ops, core.Op{Kind: "cancel", Actor: k})
 				if r.IntN(2) == 0 {
-					c.Ops = append(c.Ops, core.Op{Kind: "sub", Actor: k, X: int64(r.IntN(3)), Y: int64(r.IntN(conns))})
+					c.Ops = append(c.Ops, core.Op{Kind: "sub", Actor: k, X: int64(r.IntN(4)), Y: int64(r.IntN(conns))})
 				}
 			}
 		}
@@ -112,7 +113,7 @@ func (c13) Gen(r *rand.Rand, tier string, run int) *core.Case {
 		emit(2 + r.IntN(10))
 		return c
 	}
-	churnSig := int64(r.IntN(3))
+	churnSig := int64(r.IntN(4))
 	for k := 0; k < subs; k++ {
 		conn := r.IntN(conns)
 		if c.Batch == "own" {
@@ -123,7 +124,7 @@ func (c13) Gen(r *rand.Rand, tier string, run int) *core.Case {
 			n = 2 + r.IntN(3)
 		}
 		for i := 0; i < n; i++ {
-			sig := int64(r.IntN(3))
+			sig := int64(r.IntN(4))
 			if churn {
 				sig = churnSig
 			}
@@ -148,7 +149,7 @@ func (c13) Gen(r *rand.Rand, tier string, run int) *core.Case {
 // c13sigs are the signals of the scenario: tick, tock and the change events
 // of the property level. Emitted values tell them apart: tick n -> +n,
 // tock n -> -n, level n -> 1000000+n.
-var c13sigs = [3]uint32{SigTick, SigTock, PropLvl}
+var c13sigs = [4]uint32{SigTick, SigTock, PropLvl, SigNote}
 
 func c13index(action uint32) (int, bool) {
 	for i, a := range c13sigs {
@@ -163,10 +164,44 @@ func c13decode(v int32) (sig int, n int32) {
 	switch {
 	case v < 0:
 		return 1, -v
+	case v >= 2000000:
+		return 3, v - 2000000
 	case v >= 1000000:
 		return 2, v - 1000000
 	}
 	return 0, v
+}
+
+// c13note is the text the n-th note carries: its number, then a padding
+// whose length depends on n (some beyond any plausible buffer threshold).
+func c13note(n int32) string {
+	return fmt.Sprintf("%d|", 2000000+n) + strings.Repeat("p", []int{0, 100, 4096, 9000}[int(n)%4])
+}
+
+// c13noteVal recovers the number of a note and checks the text is the one
+// emitted: anything else is reported as value -2147483648 (altered payload).
+func c13noteVal(s string) int32 {
+	var v int32
+	if _, err := fmt.Sscanf(s, "%d|", &v); err != nil || v < 2000000 || s != c13note(v-2000000) {
+		return -1 << 31
+	}
+	return v
+}
+
+// c13wireVal decodes the value an event frame carries.
+func c13wireVal(f ref.Frame) (int32, bool) {
+	rd := ref.Rd{B: f.Payload}
+	if f.Action == SigNote {
+		s := rd.Str()
+		if rd.Err != nil || rd.Left() != 0 {
+			return 0, false
+		}
+		return c13noteVal(s), true
+	}
+	if len(f.Payload) != 4 {
+		return 0, false
+	}
+	return rd.I32(), true
 }
 
 type c13ev struct {
@@ -254,7 +289,7 @@ func (c13) Run(c *core.Case, env *core.Env) {
 	}
 	phases = append(phases, cur)
 	actorsState := map[int]*c13actor{}
-	counts := &[3]int32{}
+	counts := &[4]int32{}
 	for pi, ops := range phases {
 		by := map[int][]core.Op{}
 		var actors []int
@@ -275,7 +310,7 @@ func (c13) Run(c *core.Case, env *core.Env) {
 						for j := 0; j < int(op.Y); j++ {
 							zzsim.Yield("h.emit-pause")
 						}
-						sig := int(op.X) % 3
+						sig := int(op.X) % 4
 						counts[sig]++
 						n := counts[sig]
 						h := env.Invoke(50, "emit", fmt.Sprintf("sig%d n=%d", sig, n))
@@ -285,8 +320,10 @@ func (c13) Run(c *core.Case, env *core.Env) {
 							err = w.Impls[0].Helper.SignalTick(n)
 						case 1:
 							err = w.Impls[0].Helper.SignalTock(-n)
-						default:
+						case 2:
 							err = w.Impls[0].Helper.UpdateLevel(1000000 + n)
+						default:
+							err = w.Impls[0].Helper.SignalNote(c13note(n))
 						}
 						env.Return(h, "", err)
 						st.mu.Lock()
@@ -349,7 +386,7 @@ func (as *c13actor) do(c *core.Case, env *core.Env, st *c13state, op core.Op, cl
 			}
 			p = as.proxies[conn]
 		}
-		rec := &c13sub{sub: a, sig: int(op.X) % 3, conn: conn}
+		rec := &c13sub{sub: a, sig: int(op.X) % 4, conn: conn}
 		h := env.Invoke(a, "subscribe", fmt.Sprintf("sig%d conn%d", rec.sig, conn))
 		var ch chan int32
 		var err error
@@ -358,8 +395,20 @@ func (as *c13actor) do(c *core.Case, env *core.Env, st *c13state, op core.Op, cl
 			as.cancel, ch, err = p.SubscribeTick()
 		case 1:
 			as.cancel, ch, err = p.SubscribeTock()
-		default:
+		case 2:
 			as.cancel, ch, err = p.SubscribeLevel()
+		default:
+			var texts chan string
+			as.cancel, texts, err = p.SubscribeNote()
+			if err == nil {
+				ch = make(chan int32)
+				go func(out chan int32) {
+					for s := range texts {
+						out <- c13noteVal(s)
+					}
+					close(out)
+				}(ch)
+			}
 		}
 		env.Return(h, "", err)
 		rec.ackCall, rec.ackRet, rec.err = h.Call, h.Ret, err
@@ -435,7 +484,7 @@ func (c13) Check(c *core.Case, env *core.Env, res zzsim.Result, v *core.Verdict)
 		return
 	}
 	const inf = int64(1) << 62
-	emitted := [3]map[int32]c13emit{{}, {}, {}}
+	emitted := [4]map[int32]c13emit{{}, {}, {}, {}}
 	for _, e := range st.emits {
 		emitted[e.sig][e.n] = e
 		if e.err != nil {
@@ -451,13 +500,13 @@ func (c13) Check(c *core.Case, env *core.Env, res zzsim.Result, v *core.Verdict)
 		ok         bool
 	}
 	type connWire struct {
-		regs      [3][]regReq
-		unregs    [3][]int64         // unregister requests: seq at which the client wrote them
-		lateEvent [3]map[int32]int64 // event n -> seq of the unregister ack it followed
-		evCount   [3]map[int32]int   // how often event n was sent on this connection
-		evRegs    [3]map[int32]int   // registrations of the signal on the connection when it was sent (max)
-		evAt      [3]map[int32][]int64
-		unregAcks [3][]int64 // unregister acknowledgements: seq at which the server wrote them
+		regs      [4][]regReq
+		unregs    [4][]int64         // unregister requests: seq at which the client wrote them
+		lateEvent [4]map[int32]int64 // event n -> seq of the unregister ack it followed
+		evCount   [4]map[int32]int   // how often event n was sent on this connection
+		evRegs    [4]map[int32]int   // registrations of the signal on the connection when it was sent (max)
+		evAt      [4]map[int32][]int64
+		unregAcks [4][]int64 // unregister acknowledgements: seq at which the server wrote them
 	}
 	wires := map[int]*connWire{}
 	conns := env.NW.Conns()
@@ -465,7 +514,7 @@ func (c13) Check(c *core.Case, env *core.Env, res zzsim.Result, v *core.Verdict)
 		if pair >= len(conns) {
 			continue
 		}
-		cw := &connWire{lateEvent: [3]map[int32]int64{{}, {}, {}}, evCount: [3]map[int32]int{{}, {}, {}}, evRegs: [3]map[int32]int{{}, {}, {}}, evAt: [3]map[int32][]int64{{}, {}, {}}}
+		cw := &connWire{lateEvent: [4]map[int32]int64{{}, {}, {}, {}}, evCount: [4]map[int32]int{{}, {}, {}, {}}, evRegs: [4]map[int32]int{{}, {}, {}, {}}, evAt: [4]map[int32][]int64{{}, {}, {}, {}}}
 		wires[ci] = cw
 		cc := conns[pair]
 		c2s, c2sMarks := cc.Sent()
@@ -502,8 +551,8 @@ func (c13) Check(c *core.Case, env *core.Env, res zzsim.Result, v *core.Verdict)
 				byID[f.ID] = rq
 			}
 		}
-		count := [3]int{}
-		zeroAt := [3]int64{0, 0, 0} // seq at which the last unregister ack was written
+		count := [4]int{}
+		zeroAt := [4]int64{0, 0, 0, 0} // seq at which the last unregister ack was written
 		for _, f := range resps {
 			rq, known := byID[f.ID]
 			switch {
@@ -525,11 +574,10 @@ func (c13) Check(c *core.Case, env *core.Env, res zzsim.Result, v *core.Verdict)
 						zeroAt[i] = c13seqOf(s2cMarks, f.End)
 					}
 				}
-			case f.Type == ref.Event && (f.Action == SigTick || f.Action == SigTock || f.Action == PropLvl):
+			case f.Type == ref.Event && (f.Action == SigTick || f.Action == SigTock || f.Action == PropLvl || f.Action == SigNote):
 				i, _ := c13index(f.Action)
-				if len(f.Payload) == 4 {
-					rd := ref.Rd{B: f.Payload}
-					_, n := c13decode(rd.I32())
+				if wv, ok := c13wireVal(f); ok {
+					_, n := c13decode(wv)
 					cw.evCount[i][n]++
 					// registrations acknowledged so far plus requests on their way
 					regs := count[i]
@@ -544,7 +592,8 @@ func (c13) Check(c *core.Case, env *core.Env, res zzsim.Result, v *core.Verdict)
 					}
 					cw.evAt[i][n] = append(cw.evAt[i][n], at)
 				}
-				if zeroAt[i] == 0 || len(f.Payload) != 4 {
+				wv, wok := c13wireVal(f)
+				if zeroAt[i] == 0 || !wok {
 					continue
 				}
 				evSeq := c13seqOf(s2cMarks, f.End)
@@ -560,8 +609,7 @@ func (c13) Check(c *core.Case, env *core.Env, res zzsim.Result, v *core.Verdict)
 				if pendingReg {
 					continue
 				}
-				rd := ref.Rd{B: f.Payload}
-				_, n := c13decode(rd.I32())
+				_, n := c13decode(wv)
 				cw.lateEvent[i][n] = zeroAt[i]
 				e, ok := emitted[i][n]
 				if ok && e.start < zeroAt[i] {
@@ -586,6 +634,10 @@ func (c13) Check(c *core.Case, env *core.Env, res zzsim.Result, v *core.Verdict)
 		var prev int32
 		first := true
 		for _, ev := range s.evs {
+			if ev.val == -1<<31 {
+				bad("payload-altered", "%s received a note whose text is not the one that was emitted", name)
+				continue
+			}
 			sig, n := c13decode(ev.val)
 			if sig != s.sig {
 				bad("foreign-signal", "%s received %d, an event of the other signal", name, ev.val)
